@@ -48,6 +48,7 @@ type InstObs struct {
 	Files             []string `json:"files"`
 	Intact            bool     `json:"intact"`
 	ListedAndGettable bool     `json:"listedAndGettable"`
+	Ghost             bool     `json:"ghost"` // the plugin directory is gone, yet the manager still lists or hands out the plugin
 	BystanderSame     bool     `json:"bystanderSame"`
 	ReportedNew       int      `json:"reportedNew"`
 	ReportedOld       int      `json:"reportedOld"`
@@ -168,6 +169,16 @@ func runPluginInstall() int {
 		ctx := context.Background()
 		obs := InstObs{Files: []string{}, Intact: true, ReportedNew: -1, ReportedOld: -1}
 		panicked, msg := guarded(func() {
+			if mix(*flagSeed, c.ID, "used")%2 == 1 {
+				// the manager object has been used before: listing and look-ups of both plugins (what follows must reflect the
+				// directory as it is then, not as it was)
+				_, _ = mgr.List(ctx)
+				for _, n := range []string{"p", "q"} {
+					if pl, err := mgr.Get(ctx, n); err == nil {
+						_, _ = pl.GetMetadata(ctx, &pf.GetMetadataRequest{})
+					}
+				}
+			}
 			if in.Op == "Uninstall" {
 				err := mgr.Uninstall(ctx, "p")
 				obs.OK = err == nil
@@ -243,6 +254,17 @@ func runPluginInstall() int {
 					}
 				} else {
 					obs.Ver = -3
+				}
+			} else {
+				// nothing is installed under that name: it is neither listed nor handed out
+				names, _ := mgr.List(ctx)
+				for _, n := range names {
+					if n == "p" {
+						obs.Ghost = true
+					}
+				}
+				if _, gerr := mgr.Get(ctx, "p"); gerr == nil {
+					obs.Ghost = true
 				}
 			}
 		})
